@@ -27,6 +27,7 @@ type c15Case struct {
 	Others   [][]rt.Ev `json:"others,omitempty"`  // scripts of the other sources (fallbacks / later sources)
 	Async    bool      `json:"async"`
 	CancelAt int       `json:"cancel_during_attempt"` // -1 = never
+	Twice    bool      `json:"subscribe_twice,omitempty"`
 }
 
 func init() {
@@ -264,6 +265,33 @@ func c15Run(t rt.TB, c c15Case) {
 			}
 		}
 	}
+	if c.Twice && c.CancelAt < 0 {
+		// a second subscription of the same observable gets a fresh budget
+		want2, blocked2 := runModelObs(mobs)
+		if !blocked2 {
+			rec2 := rt.NewRecorder[int]()
+			done2 := make(chan struct{})
+			go func() {
+				defer close(done2)
+				defer func() { recover() }()
+				s2 := obs.SubscribeWithContext(ctx, rec2)
+				if c.Async {
+					s2.Wait()
+				}
+			}()
+			select {
+			case <-done2:
+			case <-time.After(10 * time.Second):
+				fail("subscribe-never-returns", desc+": second subscription still running after 10s")
+				return
+			}
+			got2 := cat.TraceOf(rec2.Trace())
+			if !cat.SameTrace(got2, want2) || int(a.Subs) != nA {
+				fail("second-subscription-budget", fmt.Sprintf("%s: second subscription got %s with %d source subscriptions in total, the definition says %s with %d", desc, got2, a.Subs, want2, nA))
+				return
+			}
+		}
+	}
 	mon.mu.Lock()
 	bad, maxLive := mon.bad, mon.maxLive
 	mon.mu.Unlock()
@@ -337,13 +365,16 @@ func TestC15_Enumerated(t *testing.T) {
 						continue
 					}
 					run(c15Case{Op: "Retry", P: []int{max, reset}, Attempts: seq, Async: async, CancelAt: -1})
+					if !async {
+						run(c15Case{Op: "Retry", P: []int{max, reset}, Attempts: seq, CancelAt: -1, Twice: true})
+					}
 				}
 			}
 			if scriptEnd(seq[len(seq)-1]) == 'C' {
 				run(c15Case{Op: "RetryDefault", Attempts: seq, Async: async, CancelAt: -1})
 			}
 			for n := 0; n <= 3; n++ {
-				run(c15Case{Op: "RepeatWith", P: []int{n}, Attempts: seq, Async: async, CancelAt: -1})
+				run(c15Case{Op: "RepeatWith", P: []int{n}, Attempts: seq, Async: async, CancelAt: -1, Twice: !async})
 			}
 		}
 	})
